@@ -104,7 +104,7 @@ theorem acceptPostings_audit (st st' : Settings) (posts : List RawPosting) (last
     · split at h
       · cases h; exact h1
       · split at h
-        · cases h
+        · first | (cases h; done) | exact absurd h (Outcome.inexact_ne_ok _ _)
         · split at h
           · cases h
           · cases h
@@ -169,7 +169,7 @@ theorem acceptTxn_spec (st st' : Settings) (r : RawTxn) (t : Txn) (h : acceptTxn
       · split at h
         · cases h
         · split at h
-          · cases h
+          · first | (cases h; done) | exact absurd h (Outcome.inexact_ne_ok _ _)
           · split at h
             · cases h
               exact ⟨ha2.trans ha1, rfl, hu⟩
